@@ -285,7 +285,7 @@ class Cutter(ast.NodeTransformer):
 
     def _comp(self, node, kind, elt):
         node = self.generic_visit(node)
-        if len(node.generators) == 2 and kind == "list" and not any(g.is_async or g.ifs for g in node.generators):
+        if len(node.generators) == 2 and kind in ("list", "gen") and not any(g.is_async or g.ifs for g in node.generators):
             # [elt for a in it1 for b in it2(a)]: a product index list; kept lazy when an iterable is abstract
             g1, g2 = node.generators
             try:
